@@ -58,7 +58,7 @@ AFTER = {
     "C04-r5": "reported by C11.R7 (a component of the source operand is dropped from the emitted operand), which existed before this seed; no rule of C04 sees the assembler side",
     "C06-r5": "reported by C09.R1 (abort-site census: `cx as i16 - 1` overflows for CX = 8000h), which existed before this seed; C06.R3 finds the value CX-1 mod 2^16 unchanged and is right about that",
     "C10-r4": "reported by C14.R5 (the forward-reference record must be keyed with the label name), which existed before this seed; C10's containment rules do not model the driver's label check",
-    "C13-r4": "reported by C19.R6 only (the name stays in the nesting set on the too-deep exit, a genuine consequence); the changed limit itself (63 instead of 64 levels) is not decided by any rule",
+    "C13-r4": "first reported by C19.R6 only (the name stays in the nesting set on the too-deep exit, a genuine consequence); C13.R8 (the depth test counts the open expansions so that a chain of 64 is still expanded) was added after this seed",
     "C15-r4": "reported by C16.R1 (a pushed line without source-map entry), which existed before this seed; C15's census leaves the driver's `source_map.get(..).unwrap()` undecided",
     "C20-r1": "caught through C17.R3 (the print range rule), which was extended after this seed; no rule of C20 decides it",
 }
